@@ -787,6 +787,17 @@ example : (match Midgard.Spec.Rinex2ObsFile.expected none tiny2F with
     some (["C1", "P2", "D1", "S1"].map String.toList, some (.list (["C1", "P2", "D1", "S1"].map String.toList)), 2) := by
   decide +kernel
 
+/-- the conjuncts `typesRecsOk` and `tfirstOk` of `wf` are needed: with a second first `# / TYPES OF OBSERV` record the parser
+restarts its type list (the header test fails: the list is not the file's), with a one-digit year in `TIME OF FIRST OBS` the
+century in front of an epoch's two digits is unreadable -/
+example :
+    let two : Midgard.Spec.Rinex2ObsFile.File := { tiny2F with hdr := tiny2F.hdr.take 3 ++
+      [("TYPES2", ["2", "C5", "L5", "", "", "", "", "", "", ""].map String.toList)] ++ tiny2F.hdr.drop 3 }
+    let y5 : Midgard.Spec.Rinex2ObsFile.File := { tiny2F with hdr := tiny2F.hdr.take 3 ++
+      [("TFIRST", ["5", "2", "1", "0", "0", "0.0000000", "GPS"].map String.toList)] }
+    two.wf = false ∧ hdrOk2 none two = false ∧ y5.wf = false ∧ hdrOk2 none y5 = false := by
+  decide +kernel
+
 end File2
 
 end Midgard.Props.C11
